@@ -1,5 +1,10 @@
 package main
 
+import (
+	"os"
+	"strconv"
+)
+
 // spec is the static description of one property's check.
 // part is one harness of a check that spans several (budget share each).
 type part struct {
@@ -34,6 +39,17 @@ type spec struct {
 	Real           []string
 	Model          []string
 	Assumptions    []string
+}
+
+// planWallS is the real-time budget of one plan during exploration: a plan over
+// it ends itself at its next step boundary (verdict "abandoned", reported in the
+// evidence). Replays, the determinism self-test and --plan-seed run without it.
+// VERIF_PLAN_WALL_S overrides it (a trial of the mechanism itself).
+func (s *spec) planWallS() float64 {
+	if f, err := strconv.ParseFloat(os.Getenv("VERIF_PLAN_WALL_S"), 64); err == nil && f > 0 {
+		return f
+	}
+	return s.PlanTimeoutS / 2
 }
 
 func (s *spec) Procs() int {
@@ -136,7 +152,7 @@ func specs() []*spec {
 			Batch: 1, QuickSecs: 60, ThoroughSecs: 900, PlanTimeoutS: 90, // one process per plan on the heavy stack: a plan runs exactly as its replay would
 			DetSamples: 10, DetThreshold: 0.9,
 			RequiredProbes: []string{"observations", "acknowledged_ops", "replica_restored_from_snapshot", "leader_killed", "killed_with_call_in_flight", "leader_isolated", "offline_state_read", "tracker_handoffs_checked", "stopped_while_clients_write", "stored_compared_with_submitted", "identical_pin_submitted_again", "kill", "restart", "stop", "partition"},
-			Rule:           "plan = 1-4 real Raft peers (heartbeat 50 ms-1 s, commit timeout, SnapshotThreshold 2-64, SnapshotInterval 0.3-30 s, TrailingLogs 0-32, CommitRetries 0-2, WaitForLeaderTimeout, link latency) + 8-90 steps: overlapping LogPin/LogUnpin at any member over 2-5 CIDs with pins drawn from the whole well-formed space (type, mode, factors, allocations, origins, metadata incl. empty key/value, expiry whole/sub-second, names, update and reference CIDs of both versions), partitions (incl. leader isolated), heals, connection resets, latency changes, stalls, kill (copy of the tmpfs data folder at that instant) + restart on the copy, graceful stop (+OfflineState) and start; then heal, 60 s liveness budget and a fresh write. Non-trivial = >=1 operation and >=1 fault fired; distinct = distinct canonical trace digest.",
+			Rule:           "plan = 1-4 real Raft peers (heartbeat 50 ms-1 s, commit timeout, SnapshotThreshold 2-64, SnapshotInterval 0.3-30 s, TrailingLogs 0-32, CommitRetries 0-2, WaitForLeaderTimeout, link latency) + 8-90 steps: overlapping LogPin/LogUnpin at any member over 2-5 CIDs with pins drawn from the whole well-formed space (type, mode, factors, allocations, origins, metadata incl. empty key/value, expiry whole/sub-second, names, update and reference CIDs of both versions), partitions (incl. leader isolated), heals, connection resets, latency changes, stalls, kill (copy of the tmpfs data folder at that instant) + restart on the copy, graceful stop (+OfflineState) and start; then heal, 120 s liveness budget and a fresh write. Non-trivial = >=1 operation and >=1 fault fired; distinct = distinct canonical trace digest.",
 			Real:           []string{"consensus/raft (Consensus, raftWrapper, LogOp.ApplyTo, commit/redirectToLeader, OfflineState, snapshot on shutdown)", "state/dsstate + api pin codecs (protobuf stored form, msgpack log form)", "go-libp2p-raft (FSM, codec, transport)", "hashicorp/raft, raft-boltdb + BoltDB, file snapshot store on tmpfs", "go-libp2p-gorpc, libp2p basic host on mocknet"},
 			Model:          []string{"PinTracker RPC service (recording)", "recording datastore under dsstate (observes every applied write and snapshot restore in order)", "Consensus RPC service shim delegating to the real Consensus (leader redirect)"},
 			Assumptions:    []string{"disk model is process kill: every completed write survives, nothing is torn inside a BoltDB transaction", "a failed or timed-out call may or may not have committed (both legal)", "residual scheduling nondeterminism of the heavy stack: exact-trace replay >= 90% (DESIGN §4), oracles are schedule independent"},
